@@ -52,6 +52,30 @@ def parser_table(prog):
     return t
 
 
+def r06_pos(chk, prog, rule="R06-pos"):
+    """diagnostics take their line from ParserState.last_token_position, which get_token() sets for every token it hands out: a token
+    is taken from the cursor directly (TokenIter::next) only inside get_token, or where the token just peeked is a comment (comments
+    never are the position of a diagnostic)"""
+    from . import sym
+    n = 0
+    for fid, b in sorted(prog.bodies.items()):
+        sites = [(bi, t) for bi, t in b.calls() if mir.strip_generics(t.get("res") or "") == "parser::TokenIter::next"]
+        if not sites:
+            continue
+        fn = mir.strip_generics(fid)
+        S = None
+        for bi, t in sites:
+            n += 1
+            if fn == "parser::ParserState::get_token":
+                continue
+            if S is None:
+                S = sym.Analyzer(prog, opaque=[r".*"]).summary(fid)
+            gs = guards.guard_set(b, S, bi)
+            if not any(re.fullmatch(r"discr\(.*ttype\) == Comment", g) for g in gs):
+                chk.add(Finding(rule, "%s::%s" % (rule, fn), "%s takes a token from the cursor without get_token() although the token is not known to be a comment: last_token_position is not updated, so a diagnostic raised next carries the line of an earlier token" % fid, b.where(t["ln"])))
+    chk.rule(rule, "direct TokenIter::next calls: inside get_token, or for a peeked comment", n, floor=2)
+
+
 def r06_msg(chk, rule="R06-msg"):
     """a diagnostic is read through its Display text: for every ParserError / TokenizerError variant that carries the position of the
     problem (`filename` and `error_line`, resp. `line`), the text starts with exactly those two fields as `file:line:`; every other
@@ -87,6 +111,7 @@ def run(chk):
     prog = mir.prog()
     scope = scopes.load_scope(prog)
     r06_msg(chk)
+    r06_pos(chk, prog)
     # ------------------------------------------------------------------ R06-single
     readers = set()
     n = 0
